@@ -76,6 +76,31 @@ def corrupt_walk(d: str) -> None:
     ok("every one of %d behaviours with a swapped latch table is rejected by Walk.tla" % hit)
 
 
+def corrupt_pipeline(d: str) -> None:
+    """TracePipeline.tla must reject a recording whose dict order, a generated name or a value table was tampered with."""
+    from . import pipefam
+
+    inputs = [{"dom": "X", "g": [list(s) for s in g]} for g in domains.closed_cfgs(4)][:160]
+    shards = pipefam.record(inputs, os.path.join(d, "pl"), 4)
+    hit = 0
+    for sh in shards:
+        with open(sh["path"]) as f:
+            data = json.load(f)
+        for c in data["cases"]:
+            last = c["stages"][-1]
+            lv = [l for l, names in last["ord"].items() if len(names) >= 2]
+            if lv:
+                names = last["ord"][lv[0]]
+                names[0], names[1] = names[1], names[0]
+                hit += 1
+        with open(sh["path"], "w") as f:
+            json.dump(data, f)
+    out = pipefam.validate(shards, 4)
+    if hit == 0 or len(out["drift"]) < hit:
+        fail("TracePipeline.tla: %d behaviours with two names swapped in a recorded dict order, only %d rejected" % (hit, len(out["drift"])))
+    ok("every one of %d behaviours with a tampered dict order is rejected by TracePipeline.tla" % hit)
+
+
 def pinned_names() -> None:
     cfg = 'CONSTANTS\n  Kinds = {"synth_asign"}\n  Flavours = {"block"}\n  MaxIdx = 1\n  Observing = FALSE\nSPECIFICATION Spec\nPROPERTY NoClobber\nCHECK_DEADLOCK FALSE\n'
     r = tlc.run("Names", cfg, {}, workers=2, cont=False)
@@ -117,6 +142,7 @@ def main(argv):
     try:
         corrupt_queries(d)
         corrupt_walk(d)
+        corrupt_pipeline(d)
         pinned_names()
     finally:
         tlc.cleanup(d)
